@@ -35,7 +35,7 @@ func (x *Exec) connSet(st *State, iv *IfaceVal, i int, t *Term) {
 }
 
 func init() {
-	assumptionText["A-CONN"] = "codec.ConnReader behaves as its interface comment says: Peek(n) returns the first min(n, Size()) buffered octets (error iff fewer than n), Size() the buffered count, Discard(n) with 0 <= n <= Size() succeeds and drops exactly n; io.ReadFull either fills its buffer with the next octets of the stream and consumes exactly those, or returns an error having consumed at most len(buf)"
+	assumptionText["A-CONN"] = "codec.ConnReader behaves as its interface comment says: Peek(n) returns the first min(n, Size()) buffered octets (error iff fewer than n), Size() the buffered count, Discard(n) with 0 <= n <= Size() succeeds and drops exactly n; io.ReadFull either fills its buffer with the next octets of the stream and consumes exactly those, or returns an error having consumed at most len(buf); it fails only when the stream ends early or the transport fails (nofault(c) names the absence of transport failures)"
 	const K = "github.com/hujm2023/go-sms-protocol/codec.ConnReader."
 	regI(K+"Peek", func(x *Exec, st *State, fr *Frame, in ssa.Instruction, recv *IfaceVal, args []Value) []Value {
 		x.assume("A-CONN")
@@ -78,6 +78,8 @@ func init() {
 		s := x.connGet(st, r, 1)
 		good := Fresh("readfull.ok", SBool)
 		st.Assume(Implies(good, Ge(Len(s), b.Len)))
+		// a read fails only because the stream ends early or the transport fails; conn.nofault names "no transport failure"
+		st.Assume(Implies(And(App("conn.nofault", SBool, r.Sym), Ge(Len(s), b.Len)), good))
 		k := Fresh("readfull.n", SInt)
 		st.Assume(And(Le(IntLit(0), k), Le(k, b.Len), Implies(good, Eq(k, b.Len))))
 		// on success the buffer holds the next len(b) octets; on failure its first k octets are overwritten with something
